@@ -357,18 +357,33 @@ func parse(src string, cfg hs.Cfg) (f *syntax.File, err error, pan string) {
 	return
 }
 
-// atTestCommand: the word `@test` at command position (first word of a simple command) in a bash tree.
-func atTestCommand(f *syntax.File) bool {
+// atTestWord: the bash tree holds the whole word `@test` among the words of a simple command (first word, or a later word
+// that bats reaches as a statement start, e.g. after `coproc NAME`).
+func atTestWord(f *syntax.File) bool {
 	found := false
 	syntax.Walk(f, func(n syntax.Node) bool {
-		if ce, ok := n.(*syntax.CallExpr); ok && len(ce.Args) > 0 && len(ce.Assigns) == 0 {
-			if l := ce.Args[0].Lit(); l == "@test" {
-				found = true
+		if ce, ok := n.(*syntax.CallExpr); ok {
+			for _, w := range ce.Args {
+				if w.Lit() == "@test" {
+					found = true
+				}
 			}
 		}
 		return !found
 	})
 	return found
+}
+
+// batsKeywordClass: the disagreement is due to the `@test` keyword and nothing else: the bash tree has `@test` as a command word
+// AND renaming that word makes bash and bats agree again.
+func batsKeywordClass(src string, fb *syntax.File, keep bool) bool {
+	if !atTestWord(fb) {
+		return false
+	}
+	src2 := strings.ReplaceAll(src, "@test", "@tesu")
+	f1, e1, p1 := parse(src2, hs.Cfg{Lang: syntax.LangBash, Keep: keep})
+	f2, e2, p2 := parse(src2, hs.Cfg{Lang: syntax.LangBats, Keep: keep})
+	return p1 == "" && p2 == "" && e1 == nil && e2 == nil && reflect.DeepEqual(f1, f2)
 }
 
 func searchCase(idStr, src string, keep bool, wantTree bool) obs {
@@ -428,7 +443,7 @@ func searchCase(idStr, src string, keep bool, wantTree bool) obs {
 		} else if !reflect.DeepEqual(fb, ft) {
 			o.Fails = append(o.Fails, "bash_bats_trees_differ")
 		}
-		if (err != nil || !reflect.DeepEqual(fb, ft)) && atTestCommand(fb) {
+		if (err != nil || !reflect.DeepEqual(fb, ft)) && batsKeywordClass(src, fb, keep) {
 			o.Class = "bats_test_keyword"
 		}
 	}
